@@ -10,8 +10,12 @@ namespace Pycoin.Driver.C16
 open Pycoin Pycoin.Driver Pycoin.DriverLib Pycoin.Msg
 
 def coin : Coin := .btc
+def btcNet : Net := ⟨.btc, false⟩
 
-def parseScalar? (s : String) : Option MVal :=
+def findNet (code : String) : Option Net :=
+  (Pycoin.Gen.Messages.networks.find? (·.1 = code.toList)).map fun r => ⟨r.2.1, r.2.2⟩
+
+def parseScalar? (n : Net) (s : String) : Option MVal :=
   if s = "N" then some .none
   else if s = "T" then some (.bool true)
   else if s = "F" then some (.bool false)
@@ -28,37 +32,47 @@ def parseScalar? (s : String) : Option MVal :=
       | _ => none
     | 't' :: rest => do
       let b ← decodeHexFast (String.ofList rest)
-      match Tx.parse coin b with
+      match Tx.parse n.coin b with
       | .ok (t, []) => some (.tx t)
       | _ => none
     | 'b' :: rest => do
       let b ← decodeHexFast (String.ofList rest)
-      match Block.parse coin true true b with
+      if n.btgHeader then
+        match BtgBlock.parse n.coin b with
+        | .ok (blk, []) => some (.blockBtg blk)
+        | _ => none
+      else
+      match Block.parse n.coin true true b with
       | .ok (blk, []) => some (.block blk)
       | _ => none
     | 'h' :: rest => do
       let b ← decodeHexFast (String.ofList rest)
+      if n.btgHeader then
+        match BtgBlock.parseAsHeader b with
+        | .ok (h, []) => some (.blockBtg ⟨h, []⟩)
+        | _ => none
+      else
       match Block.parseAsHeader b with
       | .ok (h, []) => some (.block ⟨h, []⟩)
       | _ => none
     | _ => (parseInt? s).map .int
 
-def parseElem? (s : String) : Option MVal :=
+def parseElem? (n : Net) (s : String) : Option MVal :=
   if s.startsWith "(" then
-    (((s.drop 1).toString.dropEnd 1).toString.splitOn "/").mapM parseScalar? |>.map .seq
-  else parseScalar? s
+    (((s.drop 1).toString.dropEnd 1).toString.splitOn "/").mapM (parseScalar? n) |>.map .seq
+  else parseScalar? n s
 
-def parseVal? (s : String) : Option MVal :=
+def parseVal? (n : Net) (s : String) : Option MVal :=
   if s = "[]" then some (.seq [])
   else if s.startsWith "[" then
-    (((s.drop 1).toString.dropEnd 1).toString.splitOn ",").mapM parseElem? |>.map .seq
-  else parseScalar? s
+    (((s.drop 1).toString.dropEnd 1).toString.splitOn ",").mapM (parseElem? n) |>.map .seq
+  else parseScalar? n s
 
-def parseFields? (s : String) : Option Kwargs :=
+def parseFields? (n : Net) (s : String) : Option Kwargs :=
   if s = "~" then some [] else
   (s.splitOn ";").mapM fun item =>
     match item.splitOn "=" with
-    | [k, v] => do pure (k.toList, ← parseVal? v)
+    | [k, v] => do pure (k.toList, ← parseVal? n v)
     | _ => none
 
 def hexOf (b : Bytes) : String := if b.isEmpty then "" else encodeHexFast b
@@ -74,6 +88,9 @@ def showScalar : MVal → String
   | .block blk =>
     if blk.txs.isEmpty then (match Block.streamHeader blk.hdr with | .ok b => "h" ++ hexOf b | .error _ => "h?")
     else (match Block.stream blk with | .ok b => "b" ++ hexOf b | .error _ => "b?")
+  | .blockBtg blk =>
+    if blk.txs.isEmpty then (match BtgBlock.streamHeader blk.hdr with | .ok b => "h" ++ hexOf b | .error _ => "h?")
+    else (match BtgBlock.stream blk with | .ok b => "b" ++ hexOf b | .error _ => "b?")
   | .seq _ => "?"
   | .dict _ => "?"
 
@@ -102,7 +119,7 @@ def hexOrDash (b : Bytes) : String := if b.isEmpty then "-" else encodeHexFast b
 def handle : Handler := fun op args =>
   match op, args with
   | "msg_rt", name :: fields :: _tag =>
-    match parseFields? fields with
+    match parseFields? btcNet fields with
     | none => some "err build"
     | some kw =>
       match Msg.pack coin name.toList kw with
@@ -116,6 +133,36 @@ def handle : Handler := fun op args =>
     match Msg.parse coin name.toList data with
     | .error e => some ("err " ++ e.tag)
     | .ok d => some ("ok " ++ showDict (layoutFieldCount name.toList) d)
+  -- a process history over several networks: steps `net:pack:name:fields` / `net:parse:name:hex` joined by `|`;
+  -- one answer per step, joined by `|` (the model keeps no state between steps: `Msg.runHistory`)
+  | "msg_hist", [steps] =>
+    let one (st : String) : Option (Option Call × Nat) :=
+      match st.splitOn ":" with
+      | [net, "pack", name, fields] => do
+        let n ← findNet net
+        match parseFields? n fields with
+        | none => some (none, 0)
+        | some kw => some (some (.pack n name.toList kw), layoutFieldCount name.toList)
+      | [net, "parse", name, data] => do
+        let n ← findNet net
+        let data ← if data = "-" then some [] else decodeHexFast data
+        some (some (.parse n name.toList data), layoutFieldCount name.toList)
+      | _ => none
+    match (steps.splitOn "|").mapM one with
+    | none => none
+    | some calls =>
+      let answers := runHistory () (calls.filterMap (·.1))
+      let rec zip : List (Option Call × Nat) → List Answer → List String
+        | [], _ => []
+        | (none, _) :: cs, as => "err:build" :: zip cs as
+        | (some _, nf) :: cs, a :: as =>
+          (match a with
+           | .bytes (.ok b) => hexOrDash b
+           | .bytes (.error e) => "err:" ++ e.tag
+           | .dict (.ok d) => showDict nf d
+           | .dict (.error e) => "err:" ++ e.tag) :: zip cs as
+        | (some _, _) :: _, [] => []
+      some ("ok " ++ "|".intercalate (zip calls answers))
   | _, _ => none
 
 end Pycoin.Driver.C16
